@@ -18,7 +18,7 @@ CHECKS = {
         text=(
             "The AKAI pipeline is modelled in full in Lean (partition scan, volume table, SAT decode, chain walk, file table, sample header, data window, naming, pairing, transcoder, RIFF assembly: lean/Smpl/Model/Akai*.lean) and that model is the one the driver runs. "
             "Proved, for all inputs: get_path resolves any well-formed chain in any order (C07_getPath_wf); a FileStream over any chain order reads exactly the concatenation of its sectors for any position/size, incl. reads ending exactly on a sector boundary (mkChain_isFile, readPieces_spec); "
-            "the parser's segment content is that logical content (C01_segment_eq); WAV structure (C04), byte-order routing (C12). Composition on the model: C01_realize_sample (on a complete partition a sample entry whose chain resolves to `path` is realised with exactly the bytes [140+2*start, 140+2*end) of the chain's sectors in chain order cut to the entry size), via C01_prefix_is_segment / C01_holey_is_segment / C01_file_audio; C07_akai_path_follows_sat (the resolved chain follows the SAT); struct layouts of partition header, volume entry, file entry, loop entry, sample header regenerated from /repo and compared with frozen tables (Props/Layouts). NOT yet closed as one theorem: exportOf (ser d) = expected d over a Lean writer (needs decoder completeness). "
+            "the parser's segment content is that logical content (C01_segment_eq); WAV structure (C04), byte-order routing (C12). Composition on the model: C01_realize_sample (on a complete partition a sample entry whose chain resolves to `path` is realised with exactly the bytes [140+2*start, 140+2*end) of the chain's sectors in chain order cut to the entry size), via C01_prefix_is_segment / C01_holey_is_segment / C01_file_audio; C07_akai_path_follows_sat (the resolved chain follows the SAT); struct layouts of partition header, volume entry, file entry, loop entry, sample header regenerated from /repo and compared with frozen tables (Props/Layouts). From the raw image: C01_sample_from_image — if the partition at byte pos parses, and the RAW segment allocation table of its header holds a file chain c (each word names the next sector, the last is 0xC000) starting at the entry's start sector and lying inside the partition, then the entry is realised as the sample with exactly the bytes [140+2*start, 140+2*end) of c's sectors in chain order cut to the entry's size, whatever else the table holds (parsePartition_links + C07_akai_wf + C01_realize_sample). NOT yet closed as one theorem: exportOf (ser d) = expected d over a Lean writer of whole discs (directories, volumes, naming). "
             "Tie: logical discs -> independent Python writer -> real `export` and `ls` at every node vs the Lean model byte-for-byte (hash of every exported file), with head-not-lowest chains, exact-fill files (k*8192-140), empty windows, rate 0, directory runs; oracle computed from the logical model. "
             "Found and repaired through this check: D1, D2, empty-window export (fix 170824f)."
         ),
@@ -125,7 +125,7 @@ CHECKS = {
     "C02": dict(
         technique="Lean 4 proof (window/reversal/chain-order theorems over the Roland model) + whole-image correspondence: independent Roland S-7xx writer -> real export/ls vs Lean parser model vs logical oracle",
         text=(
-            "Machine-checked: C02_window (a window inside the written words is exported as exactly those words, whatever follows them; reversed word-wise for the reverse modes), C02_mode_window (modes 1,3 end at the release end, the others at the sustain end, exactly 5,6 reversed), C02_chain_content / C02_cluster_read (content = clusters in chain order, each read whole), C02_sample (composition on the model), C02_file_clusters with C07_getPath_sound (the chain is the FAT's), reverseWords_enc / involutive. "
+            "Machine-checked: C02_window (a window inside the written words is exported as exactly those words, whatever follows them; reversed word-wise for the reverse modes), C02_mode_window (modes 1,3 end at the release end, the others at the sustain end, exactly 5,6 reversed), C02_chain_content / C02_cluster_read (content = clusters in chain order, each read whole), C02_sample (composition on the model), C02_file_clusters with C07_getPath_sound (the chain is the FAT's), reverseWords_enc / involutive. From the raw image: C02_clusters_from_image — if the FAT area parses and the RAW FAT holds a chain c whose head is an allocatable cluster no FAT word points to, the file starting there with leading-cluster offset top is exactly c minus its first top clusters, in chain order (parseFat_links + C07_roland_wf). "
             "Tie: gen_roland writes images from logical discs (7 loop modes, 6 rates, FAT version flag 1/2, contiguous/reversed/random/head-not-lowest chains, cluster_top 0-2, windows ending on k*9216, shared and orphan performances); the real tool's export and ls at every node are compared with the Lean model of the whole parser (ID area, FAT decode, directories, pointer lists, naming, WAV) and with PCM/rate computed from the logical disc. "
             "Modelled, not verified: construct's struct parsing is represented by explicit offsets (checked by the correspondence), numpy unique/reshape by sort+dedupe / word reversal."
         ),
